@@ -26,7 +26,9 @@ import (
 	"math/big"
 	"os"
 	"sort"
+	"strconv"
 	"strings"
+	"sync"
 	"time"
 	"unicode/utf8"
 
@@ -288,7 +290,7 @@ func joinStore(a, b Store) Store {
 		out.depth = anc.depth + 1
 	}
 	oneSided := func(k string, c cell, other Store) cell {
-		if strings.HasPrefix(k, "@") || strings.HasPrefix(k, "^") {
+		if strings.HasPrefix(k, "@") || strings.HasPrefix(k, "^") || strings.HasSuffix(k, "[*lo]") {
 			return c
 		}
 		if r := pathRoot(k); r != "" {
@@ -303,6 +305,12 @@ func joinStore(a, b Store) Store {
 		x, okx := a.get(k)
 		y, oky := b.get(k)
 		switch {
+		case okx && oky && strings.HasSuffix(k, "[*lo]"):
+			if x.V.K == KInt && y.V.K == KInt && x.V.I.Cmp(y.V.I) <= 0 {
+				out.m[k] = x
+			} else {
+				out.m[k] = y
+			}
 		case okx && oky && strings.HasPrefix(k, "@"):
 			// allocation counts: one, several
 			if x.V.K == KInt && y.V.K == KInt && x.V.I.Cmp(y.V.I) >= 0 {
@@ -421,14 +429,14 @@ func (in *Interp) newFrame(fn *ssa.Function, args []Val, start *ssa.BasicBlock, 
 		reached: map[ssa.Instruction]bool{}}
 }
 
-var loopMemo = map[*ssa.Function]bool{}
+var loopMemo sync.Map // *ssa.Function -> bool (shared by the self test's parallel jobs)
 
 // hasLoop reports whether the function's control-flow graph has a back edge.
 // Path mode only pays off there: without loops the fixpoint visits every block
 // once and joins nothing as long as the branch conditions are constants.
 func hasLoop(fn *ssa.Function) bool {
-	if v, ok := loopMemo[fn]; ok {
-		return v
+	if v, ok := loopMemo.Load(fn); ok {
+		return v.(bool)
 	}
 	res := false
 	for _, b := range fn.Blocks {
@@ -438,7 +446,7 @@ func hasLoop(fn *ssa.Function) bool {
 			}
 		}
 	}
-	loopMemo[fn] = res
+	loopMemo.Store(fn, res)
 	return res
 }
 
@@ -1195,7 +1203,7 @@ func isAggregate(t types.Type) bool {
 	return false
 }
 
-var leafMemo = map[types.Type][]string{}
+var leafMemo sync.Map // types.Type -> []string
 
 // leafPaths lists the path suffixes of every cell a value of aggregate type t
 // can have below it (fields, nested fields, elements of small arrays); ok is
@@ -1204,8 +1212,8 @@ func leafPaths(t types.Type) ([]string, bool) {
 	if t == nil {
 		return nil, false
 	}
-	if l, ok := leafMemo[t]; ok {
-		return l, l != nil
+	if l, ok := leafMemo.Load(t); ok {
+		return l.([]string), l.([]string) != nil
 	}
 	var out []string
 	ok := true
@@ -1241,7 +1249,7 @@ func leafPaths(t types.Type) ([]string, bool) {
 	if !ok {
 		out = nil
 	}
-	leafMemo[t] = out
+	leafMemo.Store(t, out)
 	return out, ok
 }
 
@@ -1262,6 +1270,10 @@ func (fr *frame) store(addr, v Val, t types.Type) {
 	}
 	fr.escape(v, pathRoot(path))
 	weak := strings.Contains(path, "[*]") || strings.Contains(path, "[+]") || fr.multi(path)
+	if strings.HasSuffix(path, "[*]") && strings.Count(path, "[*]") == 1 {
+		// an unknown index may be any index: the wildcard reaches down to 0
+		fr.wildFrom(path[:len(path)-3], 0)
+	}
 	if weak {
 		if old, ok := fr.cur.get(path); ok {
 			fr.w()[path] = cell{V: join(old.V, v), Maybe: old.Maybe}
@@ -1293,6 +1305,30 @@ func (fr *frame) store(addr, v Val, t types.Type) {
 		return
 	}
 	fr.w()[path] = cell{V: v}
+}
+
+// wildFrom records that base[*] now also stands for writes at indices >= lo.
+// The cell base[*lo] holds the smallest such index: a load at a constant index
+// below it cannot see what was written through the wildcard.
+func (fr *frame) wildFrom(base string, lo int) {
+	key := base + "[*lo]"
+	if c, ok := fr.cur.get(key); ok && c.V.K == KInt && c.V.I.IsInt64() && c.V.I.Int64() <= int64(lo) {
+		return
+	}
+	fr.w()[key] = cell{V: int64Val(int64(lo))}
+}
+
+// storeFrom writes v to every index >= lo of base (an append of unknown or
+// large extent at a known position).
+func (fr *frame) storeFrom(base string, lo int, v Val) {
+	path := base + "[*]"
+	fr.escape(v, pathRoot(path))
+	if old, ok := fr.cur.get(path); ok {
+		fr.w()[path] = cell{V: join(old.V, v), Maybe: old.Maybe}
+	} else {
+		fr.w()[path] = cell{V: v, Maybe: true}
+	}
+	fr.wildFrom(base, lo)
 }
 
 // inputVal is what an unwritten cell of input memory holds.
@@ -1381,7 +1417,7 @@ func (fr *frame) load(path string, t types.Type) Val {
 			// loading an unknown element: join of everything stored under the base
 			prefix := path[:i] + "["
 			for k, c := range st.flat() {
-				if strings.HasPrefix(k, prefix) && !strings.Contains(k[len(prefix):], ".") && strings.Count(k[len(prefix):], "[") == 0 {
+				if strings.HasPrefix(k, prefix) && !strings.Contains(k[len(prefix):], ".") && strings.Count(k[len(prefix):], "[") == 0 && k != prefix+"*lo]" {
 					res = join(res, c.V)
 				}
 			}
@@ -1389,7 +1425,15 @@ func (fr *frame) load(path string, t types.Type) Val {
 			return res
 		}
 		if c, ok := st.get(path[:i] + "[*]"); ok {
-			res = join(res, c.V)
+			below := false
+			if lo, ok := st.get(path[:i] + "[*lo]"); ok && lo.V.K == KInt && lo.V.I.IsInt64() {
+				if idx, err := strconv.Atoi(path[i+1 : len(path)-1]); err == nil && int64(idx) < lo.V.I.Int64() {
+					below = true
+				}
+			}
+			if !below {
+				res = join(res, c.V)
+			}
 		}
 	}
 	if maybe {
@@ -1460,7 +1504,7 @@ func (in *Interp) mem() Store {
 func (in *Interp) FinalHeap() map[string]Val {
 	out := map[string]Val{}
 	for k, c := range in.mem().flat() {
-		if !strings.HasPrefix(k, "@") && !strings.HasPrefix(k, "^") {
+		if !strings.HasPrefix(k, "@") && !strings.HasPrefix(k, "^") && !strings.HasSuffix(k, "[*lo]") {
 			out[k] = c.V
 		}
 	}
@@ -1475,6 +1519,15 @@ func (in *Interp) Elem(s Val, i int, t types.Type) Val {
 	}
 	// (loads never write)
 	return fr.load(fmt.Sprintf("%s[%d]", s.S, s.Off+i), t)
+}
+
+// Load reads a cell of known type from the memory the last run left.
+func (in *Interp) Load(path string, t types.Type) Val {
+	fr := in.curFr
+	if fr == nil || fr.cur == nil {
+		fr = &frame{in: in, cur: in.mem()}
+	}
+	return fr.load(path, t)
 }
 
 // ValueOf returns the value of v in this activation.
